@@ -1528,7 +1528,7 @@ fn insert_child(
                 .find_map(|(rowno, rrow)| {
                     rrow.cells
                         .iter()
-                        .position(|cell| cell.content.iter().any(|n| !n.is_shallow_empty()))
+                        .position(|cell| cell.content.iter().any(|n| !n.is_deep_empty()))
                         .map(|cellno| (rowno, cellno))
                 })
                 .or_else(|| match rows.first() {
